@@ -29,7 +29,10 @@ NSH = 32
 
 
 SPECIAL = [([2_000_000_000], [2_000_000_003]), ([-2_000_000_003], [-2_000_000_000]), ([1_000_000, -5], [1_000_002, -3]),
-           ([-40000, 30000, 7], [-39998, 30001, 7]), ([0, 0, 0, 0, 0], [1, 0, 2, 0, 1]), ([5], [5]), ([-1, -1, -1, -1, -1, -1], [0, 0, 0, 0, 0, 0])]
+           ([-40000, 30000, 7], [-39998, 30001, 7]), ([0, 0, 0, 0, 0], [1, 0, 2, 0, 1]), ([5], [5]), ([-1, -1, -1, -1, -1, -1], [0, 0, 0, 0, 0, 0]),
+           # bounds on both sides of 2^7, 2^8, 2^15, 2^16 (where a narrower integer type would wrap)
+           ([0], [200]), ([100], [140]), ([-200], [-120]), ([0, 120], [1, 135]), ([250], [260]), ([0], [40000]),
+           ([32760], [32775]), ([-32775], [-32760]), ([65530], [65540]), ([126, -129], [129, -126])]
 
 
 def gen_cases(seed, tier):
